@@ -77,6 +77,13 @@ class _Break(Exception):
     pass
 
 
+class Throw(Exception):
+    """a C++ exception travelling up the interpreted call chain; `types` are the class names a handler may name (most derived first)"""
+    def __init__(self, types, what=''):
+        Exception.__init__(self, what)
+        self.types, self.what = tuple(types), what
+
+
 class _Abort(Exception):
     """the replay has recorded a fault and reached a point that depends on the faulty value: stop, the fault is the finding"""
 
@@ -904,6 +911,22 @@ class Interp:
             raise _Return(self.ev(f, st['ch'][0], env) if st.get('ch') else None)
         elif k == 'BreakStmt':
             raise _Break()
+        elif k == 'CXXTryStmt':
+            try:
+                self.run(f, st['try'], env)
+            except Throw as ex:
+                for h in st.get('handlers', ()):
+                    ht = (h.get('t') or '').replace('const ', '').replace('&', '').strip()
+                    if ht == '...' or any(ht == t or ht.endswith('::' + t.split('::')[-1]) for t in ex.types):
+                        hs = f.s(h['s'])
+                        body = hs['ch'][-1] if hs and hs.get('ch') else None
+                        if hs is not None and 'd' in hs:
+                            env[hs['d']] = 0
+                        if body is not None:
+                            self.run(f, body, env)
+                        break
+                else:
+                    raise
         elif k == 'ContinueStmt':
             raise _Continue()
         elif k == 'NullStmt':
